@@ -14,6 +14,10 @@ FILES_IN = {'a/b.txt': b'INSIDE-a-b ' + b'x' * 40, 'b.txt': b'INSIDE-b', 'a/a': 
             # names with an "encoding" suffix: what is served is still the file, byte for byte
             'z.gz': b'INSIDE-z-gz-not-really-gzip ' + b'z' * 30, 'z.tgz': b'INSIDE-z-tgz ' + b'q' * 40, 'z.bz2': b'INSIDE-z-bz2',
             'z.txt.xz': b'INSIDE-z-xz ' + b'x' * 25, 'z.svgz': b'INSIDE-z-svgz ' + b's' * 25, 'z.br': b'INSIDE-z-br ' + b'b' * 25,
+            # a file next to a "pre-compressed" namesake: /z is the file z, whatever z.gz holds (not gzip data),
+            # /big.bin is big.bin whatever big.bin.gz holds (valid gzip data of OTHER content)
+            'z': b'INSIDE-z-plain ' + b'p' * 30, 'big.bin.gz': __import__('gzip').compress(b'INSIDE-stale-archive ' + b'o' * 60, mtime=0),
+            'a/b.txt.br': b'INSIDE-a-b-br-stale ' + b'r' * 30,
             'e.txt': b'', 't19.txt': b'INSIDE-19-' + b'y' * 9, 't20.txt': b'INSIDE-20-' + b'y' * 10, 't21.txt': b'INSIDE-21-' + b'y' * 11}
 FILES_OUT = {'secret.txt': b'OUTSIDE-SECRET-SENTINEL ' + b's' * 40, 'root-evil/b.txt': b'OUTSIDE-EVIL-SENTINEL',
              'a': b'OUTSIDE-A-SENTINEL', 'b.txt': b'OUTSIDE-B-SENTINEL'}
@@ -99,7 +103,7 @@ class Lazy:
         for p in (b'/../secret.txt', b'/a/../../secret.txt', b'/./../secret.txt', b'/a/b.txt/../../../secret.txt',
                   b'/../root-evil/b.txt', b'/..%2fsecret.txt', b'/%2e%2e/secret.txt', b'/..;/secret.txt',
                   b'/a/../b.txt', b'/a/./b.txt', b'/a//b.txt', b'/b.txt?../secret.txt', b'/../root/b.txt',
-                  b'/big.bin', b'/a/b.txt', b'/a/a', b'/z.gz', b'/z.tgz', b'/z.bz2', b'/z.txt.xz', b'/z.svgz', b'/z.br', b'/e.txt', b'/t19.txt', b'/t20.txt', b'/t21.txt', b'/e.txt?x', b'/a/../t20.txt', b'/..', b'/../a', b'/../b.txt', b'/a/../../a', b'/a/../../b.txt',
+                  b'/big.bin', b'/a/b.txt', b'/a/a', b'/z', b'/big.bin.gz', b'/a/b.txt.br', b'/z.gz', b'/z.tgz', b'/z.bz2', b'/z.txt.xz', b'/z.svgz', b'/z.br', b'/e.txt', b'/t19.txt', b'/t20.txt', b'/t21.txt', b'/e.txt?x', b'/a/../t20.txt', b'/..', b'/../a', b'/../b.txt', b'/a/../../a', b'/a/../../b.txt',
                   # a query whose text walks back into the root by name must not whitewash the path before it
                   b'/../secret.txt?/../root', b'/../secret.txt?/../root/b.txt', b'/a/../../secret.txt?x/../root/a',
                   b'/../root-evil/b.txt?/../../root', b'/../secret.txt?../root', b'/../b.txt?/../root/a/b.txt',
